@@ -119,7 +119,8 @@ def commonClauses (v : View) (live : Int) : List String :=
   (if releasesClean v.evs then [] else ["wipe_before_release"]) ++
   (if v.inuse == live then [] else ["inuse_balanced"]) ++
   (if v.stray then ["use_after_free"] else []) ++
-  (if v.res == .crash then ["no_crash:SIGSEGV"] else [])
+  (if v.res == .crash then ["no_crash:SIGSEGV"] else []) ++
+  (if v.res == .deadlock then ["no_crash:deadlock"] else [])
 
 def Mon.step (m : Mon) (shadow : Bool) (op : Op) (v : View) : Mon × List String :=
   match op with
